@@ -24,7 +24,9 @@ fn error_bounds<const B: Word>(
         half_ulp.repr.exponent -= 1;
         half_ulp.repr.significand = UBig::from_word((B + 1) / 2).into(); // ceil division
 
-        let incl = f.repr.significand.bit(0);
+        // ties are rounded to the even significand (taken at full precision), so the bounds
+        // belong to the interval iff the last digit of f at its precision is even
+        let incl = !f.repr.significand.bit(0) || (B % 2 == 0 && f.repr.digits() < f.precision());
         /*@ proof {
             let (b, sig, exp, p) = (B as int, f.repr.significand.v(), f.repr.exponent as int, f.context.precision as int);
             let d = ndigits(b, sig) as int;
@@ -32,6 +34,7 @@ fn error_bounds<const B: Word>(
             lemma_grid_sig(b, sig, (p - d) as nat);
             lemma_half_units(b, exp + d - p);
             lemma_eb_table(Mode::HalfEven, m);
+            lemma_grid_parity(b, sig, (p - d) as nat);
             let t = eb_table(Mode::HalfEven, m);
             assert(eb_exact(Mode::HalfEven, m, 1, 1, incl, incl));
         } @*/
